@@ -332,6 +332,11 @@ def run_multi(ctx, case):
                                graph_updater_config=up, reward_function_config=rw,
                                use_padding=case.get("padding", True), **kw)
     ctx.count("multi_env_configs")
+
+    def matrices(instance):
+        return {"durations": [[op.duration for op in job] for job in instance.jobs],
+                "machines": [[list(op.machines) for op in job] for job in instance.jobs]}
+    template = matrices(env.instance)     # the sample the declared shapes were derived from
     pad = case.get("padding", True)
     if not pad:
         ctx.count("multi_env_configs_without_padding")
@@ -345,7 +350,8 @@ def run_multi(ctx, case):
             ctx.violation("c18_multi_env_reset_raised",
                           {"error": str(e)[:200], "from_add_padding": "add_padding" in tb,
                            "generator": case["generator"], "style": case["style"],
-                           "builder": case["builder"], "episode": ep})
+                           "builder": case["builder"], "episode": ep,
+                           "template_instance": template, "episode_instance": matrices(env.instance)})
             break
         inner = env.single_job_shop_graph_env
         ctx.count("multi_env_resets_checked")
@@ -398,7 +404,8 @@ def run_multi(ctx, case):
             ctx.violation("c18_multi_env_step_raised",
                           {"error": str(e)[:200], "from_add_padding": "add_padding" in tb,
                            "generator": case["generator"], "style": case["style"],
-                           "builder": case["builder"], "episode": ep})
+                           "builder": case["builder"], "episode": ep,
+                           "template_instance": template, "episode_instance": matrices(env.instance)})
             break
     ctx.note_case(case, True, fingerprint=str(hash(str(
         (case["generator"], case["builder"], case["features"], case["reward"],
